@@ -147,7 +147,7 @@ class Check(common.Check):
         'ctor_breakpoints_asr', 'ctor_breakpoints_adsr', 'ctor_breakpoints_dadsr', 'ctor_breakpoints_cutoff',
         'ctor_breakpoints_step', 'ctor_step_default', 'ctor_breakpoints_xyc', 'ctor_pairs_is_xyc',
         'at_breakpoint_is_level', 'within_segment_between_neighbours', 'within_segment_defined',
-        'after_end_holds_last', 'env_at_agrees_with_real', 'at_needs_a_segment', 'segValue_total',
+        'exp_at_segment_start', 'after_end_holds_last', 'env_at_agrees_with_real', 'at_needs_a_segment', 'segValue_total',
         'segValue_cubed_at_zero')]
     N_QUICK = 1500
     N_THOROUGH = 40000
@@ -186,6 +186,8 @@ class Check(common.Check):
             names = ['step', 'lin', 'linear', 'hold', 'sin', 'sine', 'wel', 'welch']
             if domain in ('pos', 'nonneg'):
                 names += ['sqr', 'squared', 'cub', 'cubed']
+            if domain == 'nonneg':             # exponential segments that start from / fall to exactly 0
+                names += ['exp', 'exponential']
             if domain == 'pos':
                 names += ['exp', 'exponential']
             return 'n:' + rng.choice(names)
@@ -226,7 +228,7 @@ class Check(common.Check):
             if domain == 'pos':
                 return self.dy(rng, 1, 12, (1, 2, 4, 8)) / rng.choice([1, 1, 4])
             if domain == 'nonneg':
-                return self.dy(rng, 0, 12)
+                return Fraction(0) if rng.random() < 0.25 else self.dy(rng, 0, 12)
             return self.dy(rng, -8, 8)
 
         def dur():
@@ -655,7 +657,7 @@ class Check(common.Check):
         if sh == 1 or (sh == 5 and abs(c) < 0.0001):
             return a + (b - a) * pos
         if sh == 2:
-            return a * (b / a) ** pos
+            return 0.0 if a == 0 else a * (b / a) ** pos      # 0 ** 0 = 1: the level itself at the breakpoint
         if sh == 3:
             return a + (b - a) * (0.5 - 0.5 * math.cos(math.pi * pos))
         if sh == 4:
@@ -676,8 +678,8 @@ class Check(common.Check):
     def in_domain(e, j):
         sh = curve_shape(e['curves'][j % len(e['curves'])])
         a, b = e['levels'][j], e['levels'][j + 1]
-        if sh == 2:
-            return a * b > 0
+        if sh == 2:                        # same sign; a segment from or to exactly 0 is evaluated too
+            return a * b >= 0
         if sh in (6, 7):
             return a >= 0 and b >= 0
         return sh is not None
